@@ -15,7 +15,7 @@ CLAIMED = {
             "fast path's four scanning loops shows every byte it copies verbatim is a byte the general parser leaves "
             "unchanged; path-signature, forbidden host/domain, scheme-character, delimiter and special-scheme tables "
             "(incl. the perfect hash) equal the Standard's sets for all 256 bytes; the parser's state switch is "
-            "exhaustive. The transition logic for every string is a value-level matter and is not decided. Also: the parser's direct failure exits fail under the flag the Standard names (atSignSeen for the empty authority).",
+            "exhaustive. The transition logic for every string is a value-level matter and is not decided. Also: the parser's direct failure exits fail under the flag the Standard names (atSignSeen for the empty authority); the transition relation of the state machine (which state can follow which), extracted from the CFG of every instantiation, equals the Standard's — the conditions under which each transition is taken remain value-level.",
             "table algebra + byte-domain abstract interpretation of scanning loops + CFG state-machine graph",
             "DESIGN.md §5 C01", "partial: table/shortcut agreement only"),
     "C03": ("other",
@@ -128,7 +128,7 @@ CLAIMED = {
             "is reachable in the full parser; base handled behind is_valid; the fast validator's accepted host bytes and "
             "its IPv4 deferral heuristic are computed symbolically and compared with the forbidden-domain table and "
             "is_ipv4's early-out. One genuine defect (F3, the 3x shortcut) is reported as a known finding. Equivalence "
-            "of the scanner with the parser on all strings is not decided. Also: a size-checked parse against a base uses a base built by the storing instantiation.",
+            "of the scanner with the parser on all strings is not decided. Also: a size-checked parse against a base uses a base built by the storing instantiation; the fast validator defers tab/LF/CR in the host and port parts; its Punycode marker (reassembled from its chain of byte comparisons) is no more specific than the literal on which the host parsers leave for the IDNA conversion.",
             "return-provenance classification + state-graph reachability + must-dataflow + byte-domain abstract interpretation",
             "DESIGN.md §5 C08", "partial"),
     "C10": ("other",
